@@ -246,6 +246,7 @@ fn plan(prop: &str, tier: &str) -> Vec<ClassPlan> {
         "C08" => vec![
             ClassPlan { class: "small", total: n(800_000, 30_000_000) },
             ClassPlan { class: "big", total: n(1_200, 40_000) },
+            ClassPlan { class: "huge", total: if thorough { 4 } else { 0 } },
         ],
         "C18" => vec![
             ClassPlan { class: "small", total: n(60_000, 3_000_000) },
@@ -924,11 +925,12 @@ pub fn replay(path: &str, verbose: bool) -> i32 {
     match rf.engine.as_str() {
         "stream" if rf.scenario.get("huge").is_some() => {
             let h = &rf.scenario["huge"];
-            let (v, matches, bytes) = streamdrv::huge_run(
-                h["seed"].as_u64().unwrap_or(0),
-                h["idx"].as_u64().unwrap_or(0),
-                h["reps"].as_u64().unwrap_or(1),
-            );
+            let (hs, hi, hr) = (h["seed"].as_u64().unwrap_or(0), h["idx"].as_u64().unwrap_or(0), h["reps"].as_u64().unwrap_or(1));
+            let (v, matches, bytes) = if h["replace"].as_bool().unwrap_or(false) {
+                streamdrv::huge_replace_run(hs, hi, hr)
+            } else {
+                streamdrv::huge_run(hs, hi, hr)
+            };
             println!("  huge stream: {} matches, {} bytes delivered", matches, bytes);
             match v {
                 Some(x) => {
